@@ -5,4 +5,4 @@ CONSTANTS
   Faults = TRUE
   Stale = TRUE
   Defects = {}
-INVARIANTS TypeOK AtMostOnce Delivered NoStarvation
+INVARIANTS TypeOK AtMostOnce Delivered NoStarvation FiresOnlyWon
